@@ -798,7 +798,7 @@ theorem opPairs_sound (self o : Ds α) {p : String × DimArray α × DimArray α
 def opCompute (nan : α) (f : α → α → α) (p : String × DimArray α × DimArray α) : Except Err (String × DimArray α) :=
   operation nan f p.2.1 p.2.2 >>= fun r => pure (p.1, r.1)
 
-/-- Dataset op Dataset, after the (discarded) `reindex_like`: a `mapM` of the per-variable operations and a run of
+/-- Dataset op Dataset: a `mapM` of the per-variable operations and a run of
 `__setitem__` -/
 theorem binaryOpDs_ds_closed (nan : α) (f : α → α → α) (self o out : Ds α) (hk2 : o.keys.Nodup)
     (h : binaryOpDs nan f self (.ds o) = .ok out) :
@@ -806,12 +806,7 @@ theorem binaryOpDs_ds_closed (nan : α) (f : α → α → α) (self o out : Ds 
       ys.foldlM (fun ds kv => setItem ds kv.1 kv.2) {} = .ok out := by
   have hloop : self.vars.foldlM (fun (res : Ds α) kv1 => o.vars.foldlM (opStep nan f kv1) res) {} = .ok out := by
     unfold binaryOpDs at h
-    simp only [bind, Except.bind] at h
-    split at h
-    · cases hr : reindexLikeDs nan o self.axes with
-      | error e => rw [hr] at h; cases h
-      | ok v => rw [hr] at h; exact h
-    · exact h
+    exact h
   rw [foldlM_filterMap
     (fun kv1 => (o.vars.find? (fun kv => kv1.1 == kv.1)).map fun kv2 => (kv1.1, kv1.2, kv2.2))
     _ (fun (res : Ds α) p => opCompute nan f p >>= fun kr => setItem res kr.1 kr.2)] at hloop
